@@ -66,8 +66,9 @@ def gen_case(rng, limits=False, kinds=None):
         if rng.random() < 0.4:
             pre_tau = float(rng.integers(1, 9)) / 16
         eps = float(rng.choice([0.01, 0.03, 0.1]))
+    seed = int(rng.integers(0, 2 ** 31 - 1))
     return dict(definition=d, x0=x0, theta=theta, exact=exact, pre_tau=pre_tau, epsilon=eps,
-                seed=int(rng.integers(0, 2 ** 31 - 1)), T=None)
+                seed=seed, T=None, x0_int=[None, None, "list", "array"][seed % 4])
 
 
 def effective_lims(d):
@@ -92,7 +93,10 @@ def run_path(c):
     d = c["definition"]
     m, order = mg.build(d, route="event")
     m.parameters = c["theta"]
-    m.initial_values = ([float(v) for v in c["x0"]], np.float64(0))
+    x0 = [float(v) for v in c["x0"]]
+    if c.get("x0_int") == "list": x0 = [int(v) for v in c["x0"]]
+    if c.get("x0_int") == "array": x0 = np.array([int(v) for v in c["x0"]], dtype=np.int64)
+    m.initial_values = (x0, np.float64(0))
     m.pre_tau = c["pre_tau"]
     m._epsilon = c["epsilon"]
     if c.get("T") is None:
@@ -243,6 +247,13 @@ SHAPES = [  # one event / one state / both: the shapes that used to crash
     dict(states=["X"], params=["beta", "gamma"], derived=[], decl="list", odes=[],
          events=[dict(rate="beta", kind="const", trans=[dict(ty="B", o=None, d=0, mag="2")]),
                  dict(rate="gamma*X", kind="linear", trans=[dict(ty="D", o=0, d=None, mag="1")])]),
+    # non-integer jump sizes from an initial state given as integers (Python ints / an int64 array): the state is a float vector
+    dict(states=["A", "B", "C"], params=["beta", "gamma"], derived=[], decl="list", odes=[], _x0=[40, 0, 0], _x0_int="list", _T=2.0,
+         events=[dict(rate="beta*A/8", kind="linear", trans=[dict(ty="T", o=0, d=1, mag="2.5")]),
+                 dict(rate="gamma*B", kind="linear", trans=[dict(ty="T", o=1, d=2, mag="0.5")])]),
+    dict(states=["A", "B"], params=["beta", "gamma"], derived=[], decl="list", odes=[], _x0=[30, 1], _x0_int="array", _T=2.0,
+         events=[dict(rate="beta*A/8", kind="linear", trans=[dict(ty="T", o=0, d=1, mag="1.5")]),
+                 dict(rate="gamma", kind="const", trans=[dict(ty="B", o=None, d=0, mag="0.25")])]),
 ]
 
 
@@ -260,7 +271,8 @@ def drive(ck, pid, limits):
                 continue
             cases.append(dict(definition=dd, x0=d.get("_x0", [6] * len(d["states"])),
                               theta=d.get("_theta", {p: 0.75 for p in d["params"]}),
-                              exact=exact, pre_tau=(0.25 if d.get("_tau_only") else None), epsilon=0.03, seed=5, T=d.get("_T", 1.5)))
+                              exact=exact, pre_tau=(0.25 if d.get("_tau_only") else None), epsilon=0.03, seed=5, T=d.get("_T", 1.5),
+                              x0_int=d.get("_x0_int")))
     cases += [gen_case(rng, limits=limits) for _ in range(N)]
     coq_cases, dist = [], {}
     t_end = time.time() + ck.budget(110, 700)
